@@ -121,9 +121,12 @@ def _stmt(st, live, out):
                 if isinstance(t, ast.Name):
                     p.env[t.id] = v
                 elif isinstance(t, (ast.Tuple, ast.List)) and isinstance(st.value, (ast.Tuple, ast.List)) and len(t.elts) == len(st.value.elts):
-                    for a, b in zip(t.elts, st.value.elts):
+                    vals = [subst(b, p.env) for b in st.value.elts]
+                    for a, b in zip(t.elts, vals):
                         if isinstance(a, ast.Name):
-                            p.env[a.id] = subst(b, p.env)
+                            p.env[a.id] = b
+                        elif isinstance(a, (ast.Attribute, ast.Subscript)):
+                            p.stores.append((subst(a, p.env), b))
                 elif isinstance(t, (ast.Tuple, ast.List)) and all(isinstance(a, ast.Name) for a in t.elts):
                     # unpacking of an opaque value: component i
                     for i, a in enumerate(t.elts):
